@@ -4,6 +4,8 @@ from engine.qb import (AnalysisBroken, abstract_run, estr, unwrap, cval, walk, l
 from rules.common import some_source, field_is, has_call, derives
 
 UNITS = ['lib/log_thread.c', 'lib/log.c', 'lib/log_file.c', 'lib/log_syslog.c', 'lib/log_blackbox.c', 'lib/log_format.c']
+TECHNIQUE = ('static analysis: custom clang-LibTooling CFG/dataflow rules - locksets, dominance, edge cut-sets, must-pass-through, control '
+             'dependence, finite abstract evaluation, linear-form comparison of the backlog accounting')
 DECIDES = ('Decides the lock discipline on the queue state, append-then-post, that the worker only exits when drained, that '
            'fini stops the thread before dismantling targets, that control calls bracket their work with pause/resume, that the two '
            'teardown sequences leave the same module state, and that lock users tolerate "not started"; ordering/loss over all '
